@@ -432,6 +432,7 @@ type Contract struct {
 	ModSrc    []string
 	Unroll    map[int]int
 	Lets      []LetDef
+	Splits    []Expr
 	Storage   string // "" (reliable) | faulty
 	Trusted   bool   // body not verified (assumed contract)
 	NoInline  bool
@@ -690,6 +691,13 @@ func parseContracts(lines []srcLine) *ContractSet {
 					continue
 				}
 				cur.Lets = append(cur.Lets, LetDef{strings.TrimSpace(rest[:i]), e})
+			case "split":
+				e, err := parseExpr(rest)
+				if err != nil {
+					errf(l, "%v", err)
+					continue
+				}
+				cur.Splits = append(cur.Splits, e)
 			case "storage":
 				cur.Storage = rest
 			case "trusted":
